@@ -141,10 +141,12 @@ def run_width(rec, F, T=None):
     return T
 
 
-def run_effect(rec, F, T=None):
+def run_effect(rec, F, T=None, only=None):
     T = T or isa.tables(F)
     R = rec.rule("F1.e", "per opcode: stack_effect() as a linear form in the operand equals the handler's net push/pop along every path that ends normally; conditional transfers yield a (taken, fall-through) pair; two normal paths with different effects are a finding", exhaustive=True)
     for b in T.bc_variants:
+        if only is not None and b not in only:
+            continue
         h = handler_of(T, b)
         fn = F.fn(h) if h else None
         if fn is None:
@@ -199,6 +201,8 @@ def run_effect(rec, F, T=None):
         rec.inst(R, "effect:" + b, ok=not bad, loc=fn.loc, note=sem.lin_fmt(table))
         for k, msg in bad:
             rec.finding(R, "F1.e/%s/%s" % (b, k), "%s (ByteCode::%s): %s" % (fn.name, b, msg), loc=fn.loc, fn=fn.path)
+    if only is not None:
+        return T
     # pseudo-ops and Return
     for v in ("Label", "ArgumentDelimiter", "CaptureIndex", "InvokeSlot", "PropertySlot"):
         ok = shape(T.effect.get(v)) == ((), 0)
